@@ -217,6 +217,11 @@ Proof. exact record_sat_marks. Qed.
     within the [|txs|+1] passes of fuel). *)
 Theorem C18_dead_set_spec : forall s tg x, mem x (dead_set s tg) = true <-> Dead (m_txs s) (tg_scanned tg) x.
 Proof. exact dead_set_spec. Qed.
+(** ... independently of the ORDER in which the rows are held (dependents may precede their
+    dependencies; a single forward pass would not have this property) *)
+Theorem C18_dead_set_order_independent : forall s s' tg x, Permutation.Permutation (m_txs s) (m_txs s') ->
+  mem x (dead_set s tg) = mem x (dead_set s' tg).
+Proof. exact dead_set_order_independent. Qed.
 Theorem C18_dead_set_fixpoint : forall s tg t, In t (m_txs s) -> dead_grows (dead_set s tg) t = false.
 Proof. exact dead_set_closed. Qed.
 Theorem C18_dead_set_least : forall s tg (P : Z -> Prop),
